@@ -27,6 +27,8 @@ class Fuel:
         self.max_children = max_children
         self.states = 0
         self.children = 0
+        self.created = 0
+        self.max_created = 60 * max_states + 20000
 
     @classmethod
     def _patch(cls) -> None:
@@ -51,6 +53,20 @@ class Fuel:
             return r
 
         Column.add = add  # type: ignore[method-assign]
+
+        from fandango.language.grammar.parser.parse_state import ParseState
+
+        orig_init = ParseState.__init__
+
+        def init(self: Any, *a: Any, **kw: Any) -> None:
+            orig_init(self, *a, **kw)
+            f = Fuel._active
+            if f is not None:
+                f.created += 1
+                if f.created > f.max_created:
+                    raise FuelExhausted("states created", f.created, f.children)
+
+        ParseState.__init__ = init  # type: ignore[method-assign]
         cls._patched = True
 
     def __enter__(self) -> "Fuel":
